@@ -6,23 +6,27 @@ from props.common import run_vectors
 from props import udpflow
 
 KEYS3 = {"p1": "A", "p2": "A", "p3": "B"}
+POP_RECHECK = True     # the code as repaired: popOverflowTask looks at the channel again under enqueueMu
 INVS = ["NoResidue", "NoLostTask", "NoForeignQueue", "PerKeyFifo", "OneAtATime", "NoDuplicate"]
 
 
-def cfg_text(found, ntasks, invs, qids="{1, 2, 3}", chans="{1, 2, 3}", cap=1, maxtimer=1, emit=False):
+def cfg_text(found, ntasks, invs, qids="{1, 2, 3}", chans="{1, 2, 3}", cap=1, maxtimer=1, emit=False, poprecheck=None, producers="MC3"):
+    if poprecheck is None:
+        poprecheck = POP_RECHECK
     return """SPECIFICATION Spec
 CONSTANTS
-  Producers <- MC3Producers
-  KeyOf <- MC3KeyOf
+  Producers <- %sProducers
+  KeyOf <- %sKeyOf
   NTasks = %d
   QIds = %s
   ChanIds = %s
   ChanCap = %d
   ClaimRecheck = %s
+  PopRecheck = %s
   MaxTimer = %d
 VIEW View
 INVARIANTS RefsSane %s %s
-""" % (ntasks, qids, chans, cap, "FALSE" if found else "TRUE", maxtimer, " ".join(invs), "Emit" if emit else "")
+""" % (producers, producers, ntasks, qids, chans, cap, "FALSE" if found else "TRUE", "TRUE" if poprecheck else "FALSE", maxtimer, " ".join(invs), "Emit" if emit else "")
 
 
 def taskpool(tier, v, wd):
@@ -50,7 +54,20 @@ def taskpool(tier, v, wd):
             ce = json.load(open(dump))["counterexample"]["state"]
             last = ce[-1][1]
             behaviours.append({"schedule": last["hist"], "executed": [], "accepted": last["accepted"], "ntasks": 1, "keys": KEYS3,
-                               "origin": "counterexample_" + inv})
+                               "origin": "counterexample_" + inv, "chancap": 1})
+    # (B2) the window between the worker's look at the channel and popOverflowTask: without the second look under enqueueMu the
+    # overflow FIFO's head overtakes what producers put into the channel meanwhile (one flow, two tasks, channel capacity 1)
+    name = "UdpTaskPool_gen_found_pop.cfg"
+    with open(os.path.join(sd, name), "w") as f:
+        f.write(cfg_text(False, 2, ["PerKeyFifo"], qids="{1, 2}", chans="{1, 2}", cap=1, poprecheck=False, producers="MC1"))
+    dump = os.path.join(wd.path, "ce_pop.json")
+    r = vlib.tlc(wd, "UdpTaskPool", name, timeout=3000, dump_trace=dump, workers=1)
+    v.add_tlc(r)
+    if r.violated != "PerKeyFifo" or not os.path.exists(dump):
+        raise vlib.Infra("UdpTaskPool.tla without the second look at the channel no longer violates PerKeyFifo: vacuous model")
+    last = json.load(open(dump))["counterexample"]["state"][-1][1]
+    behaviours.append({"schedule": last["hist"], "executed": [], "accepted": last["accepted"], "ntasks": 2, "keys": {"p1": "A"},
+                       "origin": "counterexample_PerKeyFifo_popov", "chancap": 1})
     # (C) behaviours of the intended model, by simulation, replayed step by step
     name = "UdpTaskPool_gen_sim.cfg"
     with open(os.path.join(sd, name), "w") as f:
@@ -59,7 +76,7 @@ def taskpool(tier, v, wd):
     r = vlib.tlc(wd, "UdpTaskPool", name, simulate={"num": n * 40}, depth=70, workers=4, timeout=1500, max_emit=n)
     v.add_tlc(r)
     for b in r.emitted:
-        b.update({"ntasks": 2, "keys": KEYS3, "origin": "simulation"})
+        b.update({"ntasks": 2, "keys": KEYS3, "origin": "simulation", "chancap": 1})
         behaviours.append(b)
     return behaviours
 
@@ -153,5 +170,20 @@ def run(tier, v, wd, replay=None):
     # fourth part: the endpoints as handlePkt uses them (UdpFlow.tla): the key a datagram is looked up and dialled under, no second dial
     # while the key's endpoint is alive, the retry after a failed write, transports closed exactly once
     udpflow.run("C13", tier, v, wd, repo)
-    v.assumptions += ["schedules are forced at the verif yield points of udp_task_pool.go; steps between two yield points are atomic in the model",
+    # fifth part: the listener's batch reader (IngressBatch.tla) on a real loopback socket: what is handed to the tasks is what arrived
+    ifile = os.path.join(wd.path, "c13ingress.ndjson")
+    r = vlib.tlc(wd, "IngressBatch", "IngressBatch_gen.cfg", emit_to=ifile + ".all", timeout=1500)
+    v.add_tlc(r)
+    if r.violated:
+        raise vlib.Infra("IngressBatch.tla violates %s in the model" % r.violated)
+    keep = 20 if tier == "quick" else 2
+    with open(ifile, "w") as out:
+        for i, line in enumerate(open(ifile + ".all")):
+            if (i + vlib.seed()) % keep == 0:
+                out.write(line)
+    os.remove(ifile + ".all")
+    run_vectors(v, wd, repo, "./control/", "TestVerifC13Ingress", ifile, tags="verif,dae_stub_ebpf", timeout=3000, outname="out-ingress.json")
+    v.assumptions += ["ingress: real loopback UDP sockets (IP_RECVORIGDSTADDR set), batch size 2, two senders and two destination addresses; datagrams are sent and read one event at a time",
+                      "task pool replay: the pool is built with the model's channel capacity (1) so that the spill into the overflow FIFO and the window before popOverflowTask are reached with two tasks; the walks and the trace validation use the production constructor (capacity 128)",
+                      "schedules are forced at the verif yield points of udp_task_pool.go; steps between two yield points are atomic in the model",
                       "replay runs with GOMAXPROCS(1) so that sync.Pool behaves as the modelled private slot + shared chain"]
